@@ -163,7 +163,9 @@ func rewriteStmt(s ast.Stmt) ast.Stmt {
 		}
 		return &ast.BlockStmt{List: append(pre, g)}
 	case *ast.DeferStmt:
-		rewriteExpr(x.Call)
+		if c, ok := rewriteExpr(x.Call).(*ast.CallExpr); ok {
+			x.Call = c
+		}
 	case *ast.ReturnStmt:
 		for i := range x.Results {
 			x.Results[i] = rewriteExpr(x.Results[i])
@@ -294,7 +296,8 @@ func main() {
 	// paths to the rewritten copies. Files found in -add/<pkg>/*.go (harness code that
 	// lives outside the repository) are instrumented as part of the package and added
 	// to it through the overlay.
-	var repo, outDir, addDir string
+	var repo, outDir string
+	var addDirs []string
 	var pkgs []string
 	args := os.Args[1:]
 	for i := 0; i < len(args); i++ {
@@ -306,7 +309,7 @@ func main() {
 			outDir = args[i+1]
 			i++
 		case "-add":
-			addDir = args[i+1]
+			addDirs = append(addDirs, args[i+1])
 			i++
 		default:
 			pkgs = append(pkgs, args[i])
@@ -323,15 +326,15 @@ func main() {
 		panic(err)
 	}
 	for _, pkg := range pkgs {
-		total += instrumentPackage(repo, pkg, outDir, addDir, overlay)
+		total += instrumentPackage(repo, pkg, outDir, addDirs, overlay)
 	}
 	j, _ := json.MarshalIndent(map[string]any{"Replace": overlay}, "", " ")
 	os.MkdirAll(outDir, 0o755)
-	os.WriteFile(filepath.Join(outDir, "overlay.json"), j, 0o644)
+	writeIfChanged(filepath.Join(outDir, "overlay.json"), j)
 	fmt.Fprintln(os.Stderr, "instrumented", total, "files of", len(pkgs), "package(s)")
 }
 
-func instrumentPackage(repo, pkg, outRoot, addDir string, overlay map[string]string) int {
+func instrumentPackage(repo, pkg, outRoot string, addDirs []string, overlay map[string]string) int {
 	dir := filepath.Join(repo, pkg)
 	outDir := filepath.Join(outRoot, pkg)
 	ctx := build.Default
@@ -345,7 +348,7 @@ func instrumentPackage(repo, pkg, outRoot, addDir string, overlay map[string]str
 	for _, f := range bp.GoFiles {
 		srcs = append(srcs, src{filepath.Join(dir, f), f})
 	}
-	if addDir != "" {
+	for _, addDir := range addDirs {
 		extra, _ := filepath.Glob(filepath.Join(addDir, pkg, "*.go"))
 		for _, f := range extra {
 			srcs = append(srcs, src{f, filepath.Base(f)})
@@ -418,8 +421,15 @@ func instrumentPackage(repo, pkg, outRoot, addDir string, overlay map[string]str
 			s = s[:end] + "\nimport vsched \"verif/sched\"\n" + s[end:]
 		}
 		out := filepath.Join(outDir, srcs[i].name)
-		os.WriteFile(out, []byte(s), 0o644)
+		writeIfChanged(out, []byte(s))
 		overlay[filepath.Join(dir, srcs[i].name)] = out
 	}
 	return len(files)
+}
+
+func writeIfChanged(path string, b []byte) {
+	if old, err := os.ReadFile(path); err == nil && bytes.Equal(old, b) {
+		return
+	}
+	os.WriteFile(path, b, 0o644)
 }
